@@ -22,8 +22,7 @@ structure BranchSt where
   cancels : Nat := 0
   deriving Repr, DecidableEq
 
-/-- the outcome of the fence step for a phase in a state: refuse, or go on with a new record and
-    (always, in the code at HEAD) run the business callback -/
+/-- the outcome of the fence step for a phase in a state: refuse, or go on with a new record -/
 inductive FenceOut
   | refuse
   | go (r : Status)
@@ -34,25 +33,34 @@ def fenceStep : Phase → Option Status → FenceOut
   | .prepare, some _ => .refuse                       -- duplicate key (also after a suspension)
   | .commit, none => .refuse                          -- "tcc fence record not exists"
   | .commit, some .tried => .go .committed
-  | .commit, some .committed => .go .committed        -- idempotent: returns nil
+  | .commit, some .committed => .go .committed        -- idempotent: answers success, nothing to do
   | .commit, some .rollbacked => .refuse
   | .commit, some .suspended => .refuse
   | .rollback, none => .go .suspended                 -- empty rollback: record a suspension
   | .rollback, some .tried => .go .rollbacked
-  | .rollback, some .rollbacked => .go .rollbacked    -- idempotent: returns nil
+  | .rollback, some .rollbacked => .go .rollbacked    -- idempotent: answers success, nothing to do
   | .rollback, some .suspended => .go .suspended
   | .rollback, some .committed => .refuse
 
+/-- does the business callback run?  Only where the fence moves the record away from `tried` (or
+    creates it for a try): on the idempotent paths and on an empty rollback `CommitFenceOnce` /
+    `RollbackFenceOnce` answer "nothing to do" and `WithFence` returns without calling it. -/
+def runsCallback : Phase → Option Status → Bool
+  | .prepare, none => true
+  | .commit, some .tried => true
+  | .rollback, some .tried => true
+  | _, _ => false
+
 /-- number of statements the local transaction issues before its fate is sealed
-    (BEGIN, fence statements, business effect, COMMIT) -/
+    (BEGIN, fence statements, business effect where the callback runs, COMMIT) -/
 def pathLen : Phase → Option Status → Nat
-  | .prepare, none => 4
-  | .commit, some .tried => 5
-  | .commit, some .committed => 4
-  | .rollback, none => 5
+  | .prepare, none => 4                 -- BEGIN, insert, effect, COMMIT
+  | .commit, some .tried => 5           -- BEGIN, query, update, effect, COMMIT
+  | .commit, some .committed => 3       -- BEGIN, query, COMMIT
+  | .rollback, none => 4                -- BEGIN, query, insert, COMMIT
   | .rollback, some .tried => 5
-  | .rollback, some .rollbacked => 4
-  | .rollback, some .suspended => 4
+  | .rollback, some .rollbacked => 3
+  | .rollback, some .suspended => 3
   | _, _ => 2
 
 def bump (p : Phase) (s : BranchSt) : BranchSt :=
@@ -66,31 +74,35 @@ def fires (fault : Option Nat) (len : Nat) : Bool :=
   | some k => decide (1 ≤ k ∧ k ≤ len)
   | none => false
 
-/-- One delivery at HEAD.  `fault = some k`: the k-th statement of the local transaction fails
-    (database error, or the business callback itself for its position); `cbFails`: the callback
+/-- One delivery.  `fault = some k`: the k-th statement of the local transaction fails (database
+    error, or the business effect itself for its position); `cbFails`: the callback, if it runs,
     returns an error.  A failure anywhere rolls the whole local transaction back. -/
 def deliver (p : Phase) (fault : Option Nat) (cbFails : Bool) (s : BranchSt) : BranchSt × Res :=
-  match fenceStep p s.row with
-  | .refuse => (s, .refused)
-  | .go r =>
-    if fires fault (pathLen p s.row) || cbFails then (s, .refused)
-    else (bump p { s with row := some r }, .ok)
-
-/-- The documented behaviour (what the property demands): on the idempotent paths and on an empty
-    rollback the fence answers success WITHOUT running the business callback. -/
-def runsCallback : Phase → Option Status → Bool
-  | .prepare, none => true
-  | .commit, some .tried => true
-  | .rollback, some .tried => true
-  | _, _ => false
-
-def deliverSpec (p : Phase) (fault : Option Nat) (cbFails : Bool) (s : BranchSt) : BranchSt × Res :=
   match fenceStep p s.row with
   | .refuse => (s, .refused)
   | .go r =>
     if fires fault (pathLen p s.row) || (cbFails && runsCallback p s.row) then (s, .refused)
     else if runsCallback p s.row then (bump p { s with row := some r }, .ok)
     else ({ s with row := some r }, .ok)
+
+/-- The code before the repair (`WithFence` ran the callback whenever the fence step returned nil):
+    kept to state, machine-checked, what the repair changed. -/
+def pathLenBeforeFix : Phase → Option Status → Nat
+  | .prepare, none => 4
+  | .commit, some .tried => 5
+  | .commit, some .committed => 4
+  | .rollback, none => 5
+  | .rollback, some .tried => 5
+  | .rollback, some .rollbacked => 4
+  | .rollback, some .suspended => 4
+  | _, _ => 2
+
+def deliverBeforeFix (p : Phase) (fault : Option Nat) (cbFails : Bool) (s : BranchSt) : BranchSt × Res :=
+  match fenceStep p s.row with
+  | .refuse => (s, .refused)
+  | .go r =>
+    if fires fault (pathLenBeforeFix p s.row) || cbFails then (s, .refused)
+    else (bump p { s with row := some r }, .ok)
 
 structure Delivery where
   branch : Nat
@@ -108,7 +120,7 @@ def stepWith (d : Phase → Option Nat → Bool → BranchSt → BranchSt × Res
   put st x.branch (d x.phase x.fault x.cbFails (get st x.branch)).1
 
 def run (xs : List Delivery) : Store := xs.foldl (stepWith deliver) []
-def runSpec (xs : List Delivery) : Store := xs.foldl (stepWith deliverSpec) []
+def runBeforeFix (xs : List Delivery) : Store := xs.foldl (stepWith deliverBeforeFix) []
 
 /-- the shape at c3b0bd5: QueryTCCFenceDO turned "no rows" into an error, so a rollback (or commit)
     without a record was refused and recorded nothing -/
